@@ -12,10 +12,26 @@
              ( 7 v )                         v.recomputeCounts()                         -> view
              ( 8 v )                         v.Snapshot()                                -> view
              ( 9 #id #addr now:Z )           newNodeState                                -> state
-             ( a now:Z maxent:Z )            newClusterView + MaxVersionVectorEntries    -> view *)
+             ( a now:Z maxent:Z )            newClusterView + MaxVersionVectorEntries    -> view
+
+    complete values (Cluster/ViewFull.v) run on the pointer-level model (Cluster/ViewHeap.v): the operands
+    are loaded into an empty heap, every state and every non-nil map in a cell of its own; the result is
+    read back through the heap, and with it WHO SHARES WHAT with the source of a stored state
+      gomap  = ( ) nil | ( ( ( #k #v ) ... ) )
+      fstate = ( state #cluster unreach gomap:Metadata gomap:Labels checksum )
+      fview  = ( #viewid ( ) | ( ( ( #key ( ) | ( fstate ) ) ... ) ) ( epoch:Z ts:Z maxent:Z proto ( h u q ) vv ) )
+      share  = ( same-object same-Metadata-map same-Labels-map )      (both non-nil and one object)
+             ( b fv fo skew:Z strat:Z now:Z ) merge        -> ( fview changed ( ( #key share ) ... ) )   result vs fo, keys non-nil in both
+             ( c fv fstate )                  AddMember    -> ( fview ( share ) | ( ) )                   stored entry vs the caller's object
+             ( d fv )                         Snapshot     -> ( fview ( ( #key share ) ... ) )            snapshot vs fv
+             ( e fstate )                     Clone        -> ( fstate share )
+             ( f fv )                         writeClusterView then readClusterView (Codec/ClusterMsgs.v through
+                                              Cluster/ViewWire.to_wire / of_wire)            -> ( 0 fview ) | ( 1 stage ) *)
 From Coq Require Import List NArith ZArith.
 From stdpp Require Import gmap.
-From Vivid Require Import Base.Tm Codec.Prim Cluster.VV Cluster.VVRun Cluster.View.
+From Vivid Require Import Base.Tm Codec.Prim Codec.MsgPrim Cluster.VV Cluster.VVRun Cluster.View Cluster.ViewFull Cluster.ViewHeap
+  Cluster.ViewWire.
+From Vivid Require Codec.ClusterMsgs.
 Local Open Scope N_scope.
 
 Definition get_state (t : tm) : option nstate :=
@@ -53,6 +69,123 @@ Definition t_view (v : view) : tm :=
       TL [TN (vw_healthy v); TN (vw_unhealthy v); TN (vw_quorum v)];
       t_members (vw_members v); t_vv (vw_vv v)].
 
+(** * complete values *)
+Definition get_gomap (t : tm) : option gomap :=
+  match t with
+  | TL [] => Some None
+  | TL [l] => match get_list (get_pair get_b get_b) l with
+              | Some kv => Some (Some (list_to_map kv))
+              | None => None
+              end
+  | _ => None
+  end.
+Definition t_gomap (m : gomap) : tm :=
+  topt (fun m : smap => tlist (tpair TB TB) (isort (fun p q => lex_le (fst p) (fst q)) (map_to_list m))) m.
+
+Definition get_fstate (t : tm) : option fstate :=
+  match t with
+  | TL [c; TB cl; un; me; la; TN ck] =>
+      match get_state c, get_bool un, get_gomap me, get_gomap la with
+      | Some c, Some un, Some me, Some la => Some (FState c cl un me la ck)
+      | _, _, _, _ => None
+      end
+  | _ => None
+  end.
+Definition t_fstate (s : fstate) : tm :=
+  TL [t_state (fs_core s); TB (fs_cluster s); tbool (fs_unreach s); t_gomap (fs_meta s); t_gomap (fs_labels s);
+      TN (fs_checksum s)].
+
+Definition get_fentry (t : tm) : option (option fstate) :=
+  match t with
+  | TL [] => Some None
+  | TL [s] => match get_fstate s with Some s => Some (Some s) | None => None end
+  | _ => None
+  end.
+Definition get_fmembers (t : tm) : option (option fmembers) :=
+  match t with
+  | TL [] => Some None
+  | TL [l] => match get_list (get_pair get_b get_fentry) l with
+              | Some kv => Some (Some (list_to_map kv))
+              | None => None
+              end
+  | _ => None
+  end.
+Definition t_fmembers (m : option fmembers) : tm :=
+  topt (fun m : fmembers => tlist (tpair TB (topt t_fstate)) (isort (fun p q => lex_le (fst p) (fst q)) (map_to_list m))) m.
+
+Definition get_fview (t : tm) : option fview :=
+  match t with
+  | TL [TB vid; ms; TL [ep; ts; mx; TN proto; TL [TN h; TN u; TN q]; x]] =>
+      match get_fmembers ms, get_z ep, get_z ts, get_z mx, get_vv x with
+      | Some ms, Some ep, Some ts, Some mx, Some x => Some (FView vid ms ep ts h u q x proto mx)
+      | _, _, _, _, _ => None
+      end
+  | _ => None
+  end.
+Definition t_fview (v : fview) : tm :=
+  TL [TB (fv_id v); t_fmembers (fv_members v);
+      TL [tz (fv_epoch v); tz (fv_ts v); tz (fv_maxent v); TN (fv_proto v);
+          TL [TN (fv_healthy v); TN (fv_unhealthy v); TN (fv_quorum v)]; t_vv (fv_vv v)]].
+
+(** * who shares what *)
+Definition same_obj (a b : option loc) : bool :=
+  match a, b with Some x, Some y => x =? y | _, _ => false end.
+(** [a] an entry of the result, [b] the entry it may have been cloned from *)
+Definition share_tm (h : heap) (a b : loc) : tm :=
+  match h_state h a, h_state h b with
+  | Some sa, Some sb => TL [tbool (a =? b); tbool (same_obj (hs_meta sa) (hs_meta sb)); tbool (same_obj (hs_labels sa) (hs_labels sb))]
+  | _, _ => tm_err 2
+  end.
+Definition share_report (h : heap) (res src : hmembers) : tm :=
+  TL (omap (fun p : list N * option loc =>
+              match snd p, src !! fst p with
+              | Some a, Some (Some b) => Some (TL [TB (fst p); share_tm h a b])
+              | _, _ => None
+              end)
+           (isort (fun p q => lex_le (fst p) (fst q)) (map_to_list res))).
+
+Definition run_fmerge (sk st now : Z) (v o : fview) : tm :=
+  let '(h1, hv) := h_load_view h_empty v in
+  let '(h2, ho) := h_load_view h1 o in
+  let '(h3, v', ch) := h_merge sk st now h2 hv ho in
+  TL [t_fview (abs_view h3 v'); tbool ch; share_report h3 (hv_map v') (hv_map ho)].
+Definition run_fadd (v : fview) (s : fstate) : tm :=
+  let '(h1, hv) := h_load_view h_empty v in
+  let '(h2, l) := h_load_state h1 s in
+  let '(h3, v') := h_add h2 hv l in
+  TL [t_fview (abs_view h3 v');
+      match hv_map v' !! ns_id (fs_core s) with
+      | Some (Some a) => TL [share_tm h3 a l]
+      | _ => TL []
+      end].
+Definition run_fsnapshot (v : fview) : tm :=
+  let '(h1, hv) := h_load_view h_empty v in
+  let '(h2, s) := h_snapshot h1 hv in
+  TL [t_fview (abs_view h2 s); share_report h2 (hv_map s) (hv_map hv)].
+Definition run_fclone (s : fstate) : tm :=
+  let '(h1, l) := h_load_state h_empty s in
+  match h_state h1 l with
+  | Some hs => let '(h2, l') := h_clone h1 hs in
+               match h_state h2 l' with
+               | Some hs' => TL [t_fstate (abs_state h2 hs'); share_tm h2 l' l]
+               | None => tm_err 2
+               end
+  | None => tm_err 2
+  end.
+
+(** the view after one trip over the wire *)
+Definition run_fwire (o : fview) : tm :=
+  match ClusterMsgs.enc_view (Some (to_wire o)) with
+  | MOk b =>
+      match drun ClusterMsgs.dec_view b with
+      | MOk (Some w, []) => TL [TN 0; t_fview (of_wire w)]
+      | MOk (Some _, _ :: _) => TL [TN 1; TN 3]
+      | MOk (None, _) => TL [TN 1; TN 2]
+      | MErr _ => TL [TN 1; TN 2]
+      end
+  | MErr _ => TL [TN 1; TN 1]
+  end.
+
 Definition run_view (t : tm) : tm :=
   match t with
   | TL [TN 0; a; b] =>
@@ -82,5 +215,15 @@ Definition run_view (t : tm) : tm :=
       match get_z now with Some now => t_state (new_node_state id addr now) | _ => tm_err 1 end
   | TL [TN 10; now; mx] =>
       match get_z now, get_z mx with Some now, Some mx => t_view (new_view now mx) | _, _ => tm_err 1 end
+  | TL [TN 11; v; o; sk; st; now] =>
+      match get_fview v, get_fview o, get_z sk, get_z st, get_z now with
+      | Some v, Some o, Some sk, Some st, Some now => run_fmerge sk st now v o
+      | _, _, _, _, _ => tm_err 1
+      end
+  | TL [TN 12; v; s] =>
+      match get_fview v, get_fstate s with Some v, Some s => run_fadd v s | _, _ => tm_err 1 end
+  | TL [TN 13; v] => match get_fview v with Some v => run_fsnapshot v | _ => tm_err 1 end
+  | TL [TN 14; s] => match get_fstate s with Some s => run_fclone s | _ => tm_err 1 end
+  | TL [TN 15; v] => match get_fview v with Some v => run_fwire v | _ => tm_err 1 end
   | _ => tm_err 0
   end.
